@@ -466,7 +466,8 @@ impl BinaryClassification<&[bool]> for &[Pr] {
         let (mut tp, mut fp) = (0.0, 0.0);
         let mut tps_fps = Vec::new();
         let mut thresholds = Vec::new();
-        let mut s0 = 0.0;
+        // no probability equals -1, so the first score always opens the curve at (0, 0)
+        let mut s0 = -1.0;
 
         for (s, t) in tuples {
             if (*s - s0).abs() > 1e-10 {
